@@ -86,14 +86,37 @@ W.own_ctx_diamond = own_ctx_diamond
 
 
 def reducer_permutations(max_branches):
-    """E5: apply_output_reducers under every permutation of branch outputs."""
+    """E5: apply_output_reducers under every permutation of branch outputs.  Alphabet per branch: falsy and
+    negative numbers, a branch that does not produce the key at all, scalar / empty / list values for collect."""
     from stabilize.reducers import apply_output_reducers
 
+    MISSING = "<missing>"
     evals, viols, samples = 0, [], []
-    vals = [1, 2, 2, 5]
+    nums = [0, -3, 2, 2, 5, MISSING]
+    cols = [0, False, "", "x", [7, 0], MISSING]
+    srt = lambda xs: sorted(xs, key=repr)  # noqa: E731
+
+    def flat(xs):
+        out = []
+        for x in xs:
+            out.extend(x) if isinstance(x, list) else out.append(x)
+        return out
+
     for n in range(2, max_branches + 1):
-        for combo in itertools.product(vals, repeat=n):
-            branches = [{"n": x, "d": {f"k{i}": x}, "c": x} for i, x in enumerate(combo)]
+        for combo in itertools.product(range(len(nums)), repeat=n):
+            nv = [nums[i] for i in combo]
+            cv = [cols[i] for i in combo]
+            branches = []
+            for i in range(n):
+                b = {}
+                if nv[i] is not MISSING:
+                    b["n"] = nv[i]
+                    b["d"] = {f"k{i}": nv[i]}
+                if cv[i] is not MISSING:
+                    b["c"] = cv[i]
+                branches.append(b)
+            present_n = [x for x in nv if x is not MISSING]
+            present_c = [x for x in cv if x is not MISSING]
             ref = None
             for perm in itertools.permutations(range(n)):
                 outs = [branches[i] for i in perm]
@@ -101,26 +124,40 @@ def reducer_permutations(max_branches):
                 for red in ("sum", "max", "min"):
                     res[red] = apply_output_reducers({"n": red}, outs)
                 res["merge"] = apply_output_reducers({"d": "merge"}, outs)
-                col = apply_output_reducers({"c": "collect"}, outs)
-                res["collect"] = {"c": sorted(col.get("c", []))}
+                for red in ("collect", "extend"):
+                    col = apply_output_reducers({"c": red}, outs)
+                    res[red] = {"c": srt(col["c"])} if "c" in col else {}
                 evals += 1
                 if ref is None:
                     ref = res
-                    if len(samples) < 2:
-                        samples.append({"branches": list(combo), "result": res})
-                    exp = {"sum": sum(combo), "max": max(combo), "min": min(combo)}
-                    for red, want in exp.items():
-                        if res[red].get("n") != want:
-                            viols.append({"kind": "reducer-wrong-value", "reducer": red, "got": res[red], "expected": want,
-                                          "sig": f"reducer-value:{red}", "signature": f"e5:reducer-value:{red}", "trace": [list(combo)]})
-                    if res["collect"]["c"] != sorted(combo):
-                        viols.append({"kind": "collect-lost-values", "got": res["collect"], "expected": sorted(combo),
-                                      "sig": "reducer-collect", "signature": "e5:reducer-collect", "trace": [list(combo)]})
+                    if len(samples) < 2 and 0 in present_n:
+                        samples.append({"branches": branches, "result": res})
+                    if present_n:
+                        exp = {"sum": sum(present_n), "max": max(present_n), "min": min(present_n)}
+                        for red, want in exp.items():
+                            if res[red].get("n") != want or type(res[red].get("n")) is not type(want):
+                                viols.append({"kind": "reducer-wrong-value", "reducer": red, "got": res[red], "expected": want,
+                                              "sig": f"reducer-value:{red}", "signature": f"e5:reducer-value:{red}",
+                                              "trace": [branches]})
+                        wantd = {f"k{i}": nv[i] for i in range(n) if nv[i] is not MISSING}
+                        if res["merge"].get("d") != wantd:
+                            viols.append({"kind": "reducer-wrong-value", "reducer": "merge", "got": res["merge"],
+                                          "expected": wantd, "sig": "reducer-value:merge",
+                                          "signature": "e5:reducer-value:merge", "trace": [branches]})
+                    elif any(res[r] for r in ("sum", "max", "min", "merge")):
+                        viols.append({"kind": "reducer-invented-a-value", "got": {r: res[r] for r in ("sum", "max", "min")},
+                                      "sig": "reducer-invented", "signature": "e5:reducer-invented", "trace": [branches]})
+                    if present_c:
+                        for red in ("collect", "extend"):
+                            if res[red].get("c") != srt(flat(present_c)):
+                                viols.append({"kind": "collect-lost-values", "reducer": red, "got": res[red],
+                                              "expected": srt(flat(present_c)), "sig": f"reducer-{red}",
+                                              "signature": f"e5:reducer-{red}", "trace": [branches]})
                 elif res != ref:
                     bad = [r for r in res if res[r] != ref[r]]
-                    viols.append({"kind": "reducer-order-sensitive", "reducers": bad, "branches": list(combo),
+                    viols.append({"kind": "reducer-order-sensitive", "reducers": bad, "branches": branches,
                                   "perm": list(perm), "sig": "reducer-order:" + ",".join(bad),
-                                  "signature": "e5:reducer-order:" + ",".join(bad), "trace": [list(combo), list(perm)]})
+                                  "signature": "e5:reducer-order:" + ",".join(bad), "trace": [branches, list(perm)]})
     seen, out = set(), []
     for v in viols:
         if v["signature"] not in seen:
